@@ -399,9 +399,9 @@ pub fn run(ctx: &mut Ctx) {
     });
     // map-level documents of C15 (objects around control points and breaks, sample points placed bit-exactly at
     // the times where slider nodes look them up, five section orders, all versions)
-    let cases = ctx.tier.pick(40_000u64, 400_000u64);
+    let cases = ctx.tier.pick(80_000u64, 600_000u64);
     ctx.pbt("c01-map-level", cases, 700, |t, st| {
-        let (d, k) = crate::props::c15::gen_case(t);
+        let (d, k) = if t.chance(60) { crate::props::c15::gen_case_exact(t) } else { crate::props::c15::gen_case(t) };
         let text = crate::props::c15::render(&d, k);
         let mut bytes = encode_text(&text, pick_enc(t));
         let sentinel = if t.chance(50) { add_sentinel(&mut bytes) } else { None };
